@@ -34,6 +34,6 @@ def jobs(tier):
         scs.append(([(1, 2, 1, 4, 1, 0), (3, 1, 1, 3, 1, 0), (rel + 10, 1, 0, 1, 1, 0), (rel + 10, 0, 1, 2, 1, 0)], [(ROOT, 0, 1), (ROOT, 1, 1), (REQ, 2, 1), (REQ, 3, 1), (A, 2, 1), (A, 3, 0)]))
     js = []
     for i, (rels, h) in enumerate(scs):
-        js.append(Job('request%04d' % i, 'C09_lra.cpp', 'h_lra', LRA_UNITS, 100, params=L.scen(rels, h), timeout=150, mem=5,
+        js.append(Job('request%04d' % i, 'C09_lra.cpp', 'h_lra', LRA_UNITS, 100, params=L.scen(rels, h), timeout=240, mem=6,
                       desc=L.fmt(rels, h), bounds={'variables': 2, 'relations': len(rels), 'history': len(h), 'grid': 6}))
     return batch(js, 1)
